@@ -3,7 +3,13 @@ import sys
 import os
 import z3
 
-REPO = os.environ.get("VERIF_REPO", "/repo")
+def _repo_root():
+    import transactron
+
+    return os.path.dirname(os.path.dirname(os.path.abspath(transactron.__file__)))
+
+
+REPO = _repo_root()
 
 
 class FunctionTracer:
